@@ -52,6 +52,11 @@ CHECKS["C17"] = dict(cat="exploration", engine="wire",
    text="One library server, 4-16 concurrent clients (raw JSON-RPC peers and library clients) issuing increment+read, compare-and-set, claim/release of a unique slot, adopt/move/drop of strongly referenced non-root children (garbage collection under contention) and multi-row reads on a handful of keys; 2-4 monitors registered before and 2-3 during the load, some pinned into a 25 ms hold between a transaction's notification and its commit; random delays at that point. Every writing transaction inserts a uniquely named Log row, so a monitor's notifications give the order the server executed them in. Checked per history: all early monitors saw one order; every acknowledged writer occurs in it exactly once and no failed one; replaying the transactions in that order through the reference model reproduces every reply and the final database; the order respects real time; all per-key sub-histories including read-only and failed transactions are linearizable (porcupine, time-out => inconclusive); every monitor's initial reply + notifications add up to the final database; library clients' caches equal it; final integrity; increments conserved. Held = on the histories recorded; schedules are sampled, not enumerated.",
    note="Interleavings are whatever the Go scheduler, 16 cores, the race detector's slowdown and the injected delays produce; the evidence counts overlapping call pairs and distinct notified orders.", ref="4/C17")
 
+CHECKS["C18"] = dict(cat="exploration", engine="wire",
+   technique="Go race detector over a shared-client stress workload + version-uniformity monitor on every read path and event + completion monitor (calls pending long after all load stopped, goroutine stacks as witness) + error-path enumeration followed by a probe sequence; fault proxy and verif pause points widen the interleavings",
+   text="(A) 8-24 goroutines share one client and issue Get (uuid/index), List, Where/WhereAll/WhereCache List, cache Rows/Row/RowByModel/RowsByCondition/Index, Transact, Create+Transact, Monitor (one table each), Monitor of an unknown table, MonitorCancel, Echo, Disconnect, Connect, Connected/Schema/CurrentEndpoint, UpdateEndpoints, SetOption in PRNG order with per-call context deadlines, while a direct writer rewrites rows version by version (a, b, c, d always of one version), the proxy cuts the connection 2-5 times and pause points delay monitor set-up and update handling. Oracles: no race report with a libovsdb frame; every model returned by any read path or handed to an event handler is version-uniform; every call returns (still pending 60 s after all load stopped = blocked for ever); afterwards the cache converges to the database and Close returns. (B) 48 error paths (Monitor: unknown table, no tables, foreign field, unsupported method, not connected, cancelled context, silent server, same monitor twice, cut during set-up; Transact: unknown column/table, not connected, context expiry, constraint violation, no operations, cut in flight; Get/List/Where/Create misuse and not connected; MonitorCancel refused/unknown/not connected; Echo refused/silent/not connected; Connect: no endpoint, schema mismatch, cancelled, refused, cut during handshake, already connected; Disconnect/Close/SetOption variants) each followed by Echo, Get, List, Transact, Monitor, Disconnect, Connect, Echo, MonitorAll, Transact, Close: each must return within 45 s with nothing else running. Held = on the schedules the runs produced.",
+   note="Schedules are sampled; the evidence lists call/outcome counts, connection cuts, pause-point delays. The leader-change watcher is not exercised (needs a _Server database).", ref="4/C18")
+
 CHECKS["C09"] = dict(cat="exploration", engine="codec",
    technique="round-trip identity monitor + independent RFC 7047 encoder + wrong-type probes",
    text="Generated schemas over the whole type space (incl. real/boolean map keys, bounded sets, enums, references, scalar uuids) and generated rows (empty/singleton/multi collections, nil/non-nil optionals, zero values, integers at 0, +-1, +-2^31, +-2^53(+1), +-2^62, min/max int64): model -> NewRow -> JSON -> Row.UnmarshalJSON -> GetRowData/CreateModel must give back every field (sets as sets); each column's wire form is compared with an independent RFC encoder; absent columns must leave pre-filled fields untouched; values of the wrong Go type (22 candidates per column) and ill-typed wire values must be rejected by NativeToOvs / SetField / OvsToNative. One known finding (integers beyond 2^53).",
